@@ -12,6 +12,7 @@ import (
 	"io"
 	"net"
 	"os"
+	"strings"
 	"syscall"
 	"time"
 
@@ -592,6 +593,12 @@ func NewFaultErr(c *sim.Ctx, what string) (*FaultErr, string) {
 		e.Inner, kind = syscall.EINTR, "wraps-EINTR"
 	case 7:
 		e.Inner, kind = io.ErrNoProgress, "wraps-io.ErrNoProgress"
+	}
+	if c.T.Bool(1, 10) {
+		// an error whose text runs to kilobytes (a TLS alert with its certificate
+		// chain, a proxy's HTML error page)
+		e.Msg += ": " + strings.Repeat("certificate chain / proxy said: 502 Bad Gateway; ", 30+c.T.Int(100))
+		kind += "+text-of-kilobytes"
 	}
 	if c.T.Bool(1, 8) {
 		e.list = true
